@@ -68,6 +68,8 @@ def run(ctx):
                       'src/bin/copia/reconcile.rs (reconcile::reconcile_path)')
     ctx.attempt(r8, ctx, F)
     ctx.attempt(r9, ctx, F, bs)
+    ctx.rule('C06.R12', 'every path of the union is decided exactly once: a merge pass over the two scans compares their keys in the order the maps are sorted in', floor=1)
+    ctx.attempt(C18.merge_order_for, ctx, F, 'C06.R12')
 
 
 class _Alias:
